@@ -366,6 +366,7 @@ PROPS = {
     "C18": {
         "level": "proof",
         "extract": ["IdlGrammar", "SigGrammar"],
+        "extra_modules": ["QiVerif.Lemmas.Idl"],
         "rule": "type texts (600, thorough 6000: nested Vec / Map / Tuple over the 15 basic keywords, declared, undeclared and "
                 "template-named references, near-keywords such as strx / int7 / anything, empty and broken texts, white "
                 "space inside) wrapped into a package with three struct declarations and parsed by idl.ParseIDL: the "
@@ -377,7 +378,8 @@ PROPS = {
                 "4 (thorough 40) x 400 mutated / random IDL texts in child processes must yield a package or an error",
         "assumptions": [
             "the line and package layers (fn / sig / prop lines, //uid: comments, struct blocks, scopes) are compared by the "
-            "harness's own round-trip oracle, not by a Lean model: the theorem covers the type layer",
+            "harness's own round-trip oracle, not by a Lean model: the theorems (parse_print, signature_survives) cover the type layer",
+            "template struct names (Name<T>) are outside the class of the theorems and exercised by the correspondence only",
             "totality of the real parser is sampled (fuzzing in child processes); the model's parser is total by construction",
         ],
         "timeout": {"quick": 900, "thorough": 3000},
